@@ -184,7 +184,7 @@ def run(ctx):
 
 VARIANTS = [
     Variant("C10", "analysis emits a label the fix does not know", "fire",
-            [("vsg/rules/whitespace_between_tokens.py", '        oViolation.set_action("adjust")', '        oViolation.set_action("adjust_to_one")')], rule="C10.labels"),
+            [("vsg/rules/blank_line_below_line_ending_with_token.py", '        dAction["action"] = "Remove"', '        dAction["action"] = "Delete"')], rule="C10.labels"),
     Variant("C10", "update inside the per-violation loop", "fire",
             [("vsg/rule.py", "                self._fix_violation(oViolation)\n                self.had_violations = True\n            oFile.update(self.violations, self.remap)", "                self._fix_violation(oViolation)\n                self.had_violations = True\n                oFile.update(self.violations, self.remap)")],
             rule="C10.cycle"),
@@ -193,5 +193,5 @@ VARIANTS = [
     Variant("C10", "fixable rule loses its fix", "fire",
             [("vsg/rules/remove_tokens.py", "    def _fix_violation(self, oViolation):", "    def _fix_violations(self, oViolation):")], rule="C10.cycle", key="no-fix"),
     Variant("C10", "twin: fix dispatch gains an explicit branch", "silent",
-            [("vsg/rules/whitespace_between_tokens.py", '        oViolation.set_action("adjust")', '        oViolation.set_action("adjust")  # handled below')]),
+            [("vsg/rules/blank_line_below_line_ending_with_token.py", '        elif dAction["action"] == "Remove":', '        elif dAction["action"] in ("Remove", "Delete"):')]),
 ]
